@@ -231,8 +231,12 @@ func (g GRPCAPI) ServeWhoRawCloser(id uint32, tag string) (func(), error) {
 	go s.Serve(ln)
 	return func() { s.Stop(); ln.Close() }, nil
 }
+// SharedDialOpts is one option slice with spare capacity, passed by every dialling goroutine (what an
+// application that builds its options once with append does).
+var SharedDialOpts = append(make([]grpc.DialOption, 0, 8), grpc.WithUserAgent("verif-host"))
+
 func (g GRPCAPI) DialWho(id uint32) (string, error) {
-	conn, err := g.B.Dial(id)
+	conn, err := g.B.DialWithOptions(id, SharedDialOpts...)
 	if err != nil {
 		return "", err
 	}
@@ -258,7 +262,7 @@ func whoCall(id uint32, conn *grpc.ClientConn, d time.Duration) (string, error) 
 }
 
 func (g GRPCAPI) DialKeep(id uint32) (string, error) {
-	conn, err := g.B.Dial(id)
+	conn, err := g.B.DialWithOptions(id, SharedDialOpts...)
 	if err != nil {
 		return "", err
 	}
